@@ -174,12 +174,17 @@ PROPS = {
     'C11': dict(
         rules=[layout.layout_state, layout.layout_noise, layout.layout_prov, layout.p0_form,
                layout.rec_order, kal.q_psd,
+               lambda c: sched.sched_epochs(c, (sched.FF,)),
+               lambda c: sched.sched_mcursor(c, (sched.FF,)),
+               lambda c: sched.sched_no_overtake(c, (sched.FF,)),
                lambda c: sched.sched_pair(c, (sched.FF,)),
                lambda c: sched.sched_handover(c, (sched.FF,)),
                lambda c: sched.sched_progress(c, (sched.FF,)),
                idxdom.idx_domain, sensor.sm_gate,
                lambda c: interp.interp_rules(c, ('feedforward',))],
-        decided=['positional cursors address rows of their own time axis only (the readings '
+        decided=['every measurement sample is fused exactly once (epoch list de-duplicated, cursor pairing, no epoch overtaken: the C10 rules on the feedforward loop)',
+                 'the epoch state is the interpolation between the bracketing rows with the elapsed fraction; propagation matrices at the mid-point state',
+                 'positional cursors address rows of their own time axis only (the readings '
                  'averaged for the sensor-state coupling come from the propagated interval)',
                  'state and noise block layout contiguous, disjoint and identical in all six '
                  'functions', 'every block is fed from / read into the model that owns it',
